@@ -7,6 +7,8 @@ from .. import core, xbt1
 from .c27 import BOUNDARY_NUMS, numbers
 
 SEPARATORS = " \t\n,"
+SAFE_KINDS = ("ok", "exc", "reject-exc", "poke")        # outcomes that cannot end the process
+BOUND_ITEMS = ("precision/timing", "precision/work-amount", "maxmin/concurrency-limit", "contexts/stack-size", "contexts/guard-size")
 UNKNOWN = object()
 _REG = None
 
@@ -164,6 +166,92 @@ def one_op(draw, items, aliases, pure=False):
     return op
 
 
+def spellings(typ, v):
+    """strings that the documented grammar reads as the value v (first the canonical ones, C spellings last)"""
+    if typ == "boolean":
+        return list(xbt1.TRUE_SPELLINGS if v else xbt1.FALSE_SPELLINGS) + (["YES", "On", "TRUE"] if v else ["NO", "Off", "False"])
+    if typ == "int":
+        return [str(v), str(v), "%s0x%x" % ("-" if v < 0 else "", abs(v)), "+%d" % v if v >= 0 else str(v),
+                ("-" if v < 0 else "") + "0" + oct(abs(v))[2:]]
+    if typ == "double":
+        r = repr(float(v))
+        out = [r, r, "%.17e" % v, "%s0" % r if "e" not in r and "." in r else r, "+" + r if v >= 0 else r]
+        return [o for o in out if float(o) == v]
+    return [v]
+
+
+VF_VALUES = {   # (accepted values, refused values) of the driver's test flags
+    "vf/int-even": (st.one_of(st.sampled_from([0, 2, -2, 4, 100, xbt1.INT_MAX - 1, xbt1.INT_MIN]), st.integers(-50, 50).map(lambda x: 2 * x)),
+                    st.one_of(st.sampled_from([1, -1, 3, 7, xbt1.INT_MAX]), st.integers(-50, 50).map(lambda x: 2 * x + 1))),
+    "vf/int-range": (st.one_of(st.sampled_from([0, 1, 3, -100, 100, 42]), st.integers(-100, 100)),
+                     st.one_of(st.sampled_from([101, -101, 1000, xbt1.INT_MAX, xbt1.INT_MIN]), st.integers(101, 10 ** 6))),
+    "vf/double-pos": (st.sampled_from([0.0, 0.5, 1.0, 2.5, 1e-3, 1e10, 0.1, 3.0]), st.sampled_from([-1.0, -0.5, -1e-300, -2.5e10])),
+    "vf/bool": (st.booleans(), None),
+    "vf/string-abc": (st.sampled_from(["a", "b", "c"]), st.sampled_from(["d", "", "A", "ab", "help"])),
+}
+PLAIN_VALUES = {"int": st.sampled_from([0, 1, 3, 8, 64, -1, 1000]), "double": st.sampled_from([0.0, 0.5, 1.0, 2.5, 1e-3, 1e10]),
+                "boolean": st.booleans(), "string": st.sampled_from(["x", "1.0", "a:b", ""])}
+
+
+@st.composite
+def repeat_seq(draw, items, aliases, pure):
+    """2-5 consecutive settings of ONE item through the string routes: the same value again under another spelling / through the
+    alias / through another route, a refused value given twice, a change and back, the bound variable poked in between."""
+    vf = [n for n in xbt1.VF_FLAGS if n in items]
+    c = draw(st.integers(0, 9))
+    if vf and c < 6:
+        real = draw(st.sampled_from(vf))
+    elif not pure and c < 8:
+        real = draw(st.sampled_from([n for n in ("smpi/host-speed", "model-check/watch") if n in items] or sorted(items)))
+    else:
+        pool = sorted(n for n in items if (n in xbt1.PURE if pure else n in xbt1.PLAIN) and n not in xbt1.VF_FLAGS)
+        real = draw(st.sampled_from([n for n in pool if n in BOUND_ITEMS] or pool)) if draw(st.booleans()) else draw(st.sampled_from(pool))
+    typ = items[real]["type"]
+    names = [real, real] + [a for a in aliases if aliases[a] == real]
+    if real in VF_VALUES:
+        good, bad = VF_VALUES[real]
+    elif real == "smpi/host-speed":
+        good, bad = st.sampled_from(["1f", "20000f", "2.5Mf", "1Gf"]), st.sampled_from(["fast", "1s", "1Bps", ""])
+    elif real == "model-check/watch":
+        good, bad = st.sampled_from(["", "dead", "1,2,3"]), st.sampled_from(["xyz", "g", "1,,2"])
+    else:
+        good, bad = PLAIN_VALUES[typ], None
+
+    def setting(v, canonical=False):
+        sp = spellings(typ, v)
+        val = sp[0] if canonical else draw(st.sampled_from(sp))
+        how = draw(st.sampled_from(["parse", "string", "string"]))
+        if any(ch in val for ch in SEPARATORS):
+            how = "string"
+        return {"how": how, "name": draw(st.sampled_from(names)), "type": typ, "value": val}
+
+    pat = draw(st.sampled_from(["same", "same", "same3", "back", "refused-twice", "refused-twice", "good-bad-bad-good", "poke", "typed-then-string"]))
+    if bad is None and pat in ("refused-twice", "good-bad-bad-good"):
+        pat = "same3"
+    if real not in xbt1.VF_FLAGS and pat == "poke":
+        pat = "same"
+    v = draw(good)
+    ops = []
+    if pat in ("same", "same3"):
+        ops = [setting(v), setting(v)] + ([setting(v)] if pat == "same3" else [])
+    elif pat == "back":
+        ops = [setting(v), setting(draw(good)), setting(v)]
+    elif pat == "refused-twice":
+        b = draw(bad)
+        ops = [setting(b), setting(b)] + ([setting(v)] if draw(st.booleans()) else [])
+    elif pat == "good-bad-bad-good":
+        b = draw(bad)
+        ops = [setting(v), setting(b), setting(b), setting(v)]
+    elif pat == "poke":
+        w = draw(good)
+        ops = [setting(v), {"how": "poke", "name": real, "type": typ, "value": w}, setting(v)]
+    else:
+        ops = [{"how": "typed", "name": real, "type": typ, "value": v}, setting(v), setting(v)]
+    for o in ops:
+        o["seq"] = pat
+    return ops
+
+
 @st.composite
 def cases(draw, items, aliases):
     pure = draw(st.integers(0, 9)) < 7
@@ -171,6 +259,9 @@ def cases(draw, items, aliases):
         # store-only items (and unknown names): no setting can end the process, the case runs without a fork
         n = draw(st.integers(1, 30))
         ops = draw(st.lists(one_op(items, aliases, True), min_size=n, max_size=n))
+        for _ in range(draw(st.sampled_from([0, 1, 1, 2, 3]))):
+            pos = draw(st.integers(0, len(ops)))
+            ops[pos:pos] = draw(repeat_seq(items, aliases, True))
         return {"ops": glue(draw, ops, items, aliases)}
     n = draw(st.integers(1, 14))
     ops = draw(st.lists(one_op(items, aliases), min_size=n, max_size=n))
@@ -178,6 +269,9 @@ def cases(draw, items, aliases):
     if replay_first:
         ops.insert(0, {"how": draw(st.sampled_from(["parse", "string", "typed", "argv"])), "name": "model-check/replay", "type": "string",
                        "value": draw(st.sampled_from(["1;2;3", "0", "x"]))})
+    for _ in range(draw(st.sampled_from([0, 1, 1, 2]))):
+        pos = draw(st.integers(1 if replay_first else 0, len(ops)))
+        ops[pos:pos] = draw(repeat_seq(items, aliases, False))
     # only the first op can go through the command line of the Engine constructor
     if draw(st.integers(0, 3)) == 0 and not any(ch in str(ops[0]["value"]) for ch in SEPARATORS) and ops[0]["how"] in ("parse", "string") \
             and isinstance(ops[0]["value"], str):
@@ -187,8 +281,8 @@ def cases(draw, items, aliases):
             op["how"] = "parse"
     # ops that can end the process (validation aborts, open verdicts, 'help') go last, one per case
     pred = predict(ops, items, aliases)
-    safe = [op for op, p in zip(ops, pred) if p[0] in ("ok", "exc")]
-    risky = [op for op, p in zip(ops, pred) if p[0] not in ("ok", "exc")]
+    safe = [op for op, p in zip(ops, pred) if p[0] in SAFE_KINDS]
+    risky = [op for op, p in zip(ops, pred) if p[0] not in SAFE_KINDS]
     if ops and ops[0]["how"] == "argv" and ops[0] not in safe:
         ops = [ops[0]]
     else:
@@ -234,6 +328,8 @@ def expect_op(op, items, aliases, replay_active, defaults=None):
     """-> (kind, real, value, why): kind in ok | exc (C++ exception required, nothing changes) | reject (exception or abort, the item
     is in an unknown state afterwards) | open | exit0."""
     real = resolve(op["name"], items, aliases)
+    if op["how"] == "poke":
+        return ("poke", real, op["value"], "poke") if real in xbt1.VF_FLAGS else ("invalid", real, None, "poke")
     if real is None:
         return ("exc", None, None, "unknown-name")
     typ = items[real]["type"]
@@ -281,7 +377,9 @@ def same(typ, got, want):
     if got is None or isinstance(got, dict):
         return False
     if typ == "double":
-        g = float(got) if got in ("inf", "-inf", "nan", "-nan") else float.fromhex(got)
+        if isinstance(got, bool):
+            return False
+        g = float(got) if isinstance(got, (int, float)) or got in ("inf", "-inf", "nan", "-nan") else float.fromhex(got)
         if math.isnan(want):
             return math.isnan(g)
         return g == want and math.copysign(1, g) == math.copysign(1, want)
@@ -373,6 +471,30 @@ class C48(core.Prop):
             for o, p_ in zip(ops, pred):
                 if p_[0] not in ("ok", "exc"):
                     res.append({"ops": [o]})
+        # the driver's test flags: the same value again (other spelling, alias, other route), a refused value twice, poke and set back
+        def S(name, typ, value, how="string"):
+            return {"how": how, "name": name, "type": typ, "value": value, "seq": "fixed"}
+        if all(n in items for n in xbt1.VF_FLAGS):
+            res += [
+                {"ops": [S("vf/int-range", "int", "3"), S("vf/int-range", "int", "3"), S("vf/int-range-alias", "int", "0x3", "parse"),
+                         S("vf/int-range", "int", "03", "parse")]},
+                {"ops": [S("vf/bool", "boolean", "yes"), S("vf/bool", "boolean", "on", "parse"), S("vf/bool-alias", "boolean", "TRUE"),
+                         S("vf/bool", "boolean", "no"), S("vf/bool", "boolean", "0")]},
+                {"ops": [S("vf/double-pos", "double", "0.5"), S("vf/dpos", "double", "5e-1", "parse"), S("vf/double-pos", "double", ".50")]},
+                {"ops": [S("vf/string-abc", "string", "b"), S("vf/sabc", "string", "b", "parse"), S("vf/string-abc", "string", "b")]},
+                {"ops": [S("vf/int-even", "int", "3"), S("vf/int-even", "int", "3"), S("vf/int-even", "int", "3", "parse"), S("vf/int-even", "int", "4")]},
+                {"ops": [S("vf/int-even", "int", "2"), S("vf/int-even", "int", "7"), S("vf/int-even", "int", "7"), S("vf/int-even", "int", "2")]},
+                {"ops": [S("vf/int-range", "int", "101"), S("vf/int-range-alias", "int", "101", "parse"), S("vf/int-range", "int", "100")]},
+                {"ops": [S("vf/double-pos", "double", "-1"), S("vf/double-pos", "double", "-1.0"), S("vf/dpos", "double", "-1e0", "parse")]},
+                {"ops": [S("vf/string-abc", "string", "d"), S("vf/string-abc", "string", "d"), S("vf/string-abc", "string", "c")]},
+                {"ops": [S("vf/int-range", "int", "5"), S("vf/int-range", "int", 9, "poke"), S("vf/int-range", "int", "5")]},
+                {"ops": [S("vf/bool", "boolean", "yes"), S("vf/bool", "boolean", False, "poke"), S("vf/bool", "boolean", "true", "parse")]},
+                {"ops": [S("vf/int-range", "int", 1, "typed"), S("vf/int-range", "int", "1"), S("vf/int-range", "int", "1", "parse")]},
+                {"ops": [S("vf/int-even", "int", "0", "argv"), S("vf/int-even", "int", "0"), S("vf/int-even", "int", "1"), S("vf/int-even", "int", "1")]},
+                {"ops": [S("smpi/host-speed", "string", "fast"), S("smpi/host-speed", "string", "fast"), S("smpi/host-speed", "string", "1Gf")]},
+                {"ops": [S("model-check/watch", "string", "xyz"), S("model-check/watch", "string", "xyz")]},
+                {"ops": [S("precision/timing", "double", "1e-6"), S("surf/precision", "double", "1e-6", "parse"), S("precision/timing", "double", "0.000001")]},
+            ]
         for al in sorted(aliases):
             real = aliases[al]
             typ = items[real]["type"]
@@ -468,7 +590,7 @@ class C48(core.Prop):
                 oc.invalid = True
                 return oc
             if eng is None:
-                death(e[0], e[0] in ("reject", "open", "open-reject", "exit0"), desc(first_argv))
+                death(e[0], e[0] in ("reject", "reject-exc", "open", "open-reject", "exit0"), desc(first_argv))
                 return self.finish(oc, boundary, used_alias, True)
             if "exc" in eng:
                 if e[0] == "ok":
@@ -477,7 +599,7 @@ class C48(core.Prop):
                 oc.labels.append("rejected-by-exception")
                 return self.finish(oc, boundary, used_alias, True)
             state = dict(eng.get("read", {}))
-            if e[0] in ("exc", "reject", "open-reject"):
+            if e[0] in ("exc", "reject", "reject-exc", "open-reject"):
                 oc.bad("invalid-setting-accepted:%s:%s" % (e[1] or "<unknown>", e[3].split(":")[0]),
                        "--cfg=%s:%s was accepted by the Engine constructor (item now %s); expected a rejection (%s)"
                        % (first_argv["name"], first_argv["value"], show(items[e[1]]["type"], state.get(e[1])) if e[1] else "-", e[3]))
@@ -507,6 +629,33 @@ class C48(core.Prop):
 
         def to_driver(typ, v):
             return v
+
+        # the driver's own test flags: number of callback invocations and bound variable after each step
+        vfm = None
+        if eng and isinstance(eng.get("vf"), dict):
+            vfm = {n: {"calls": d["calls"], "var": pyval(items[n]["type"], d["var"])} for n, d in eng["vf"].items() if n in items}
+        last_refused = {}
+
+        def vf_compare(st__, what):
+            """every test flag: callback run exactly once per setting whose value parsed, never otherwise; bound variable = last accepted value"""
+            if vfm is None or not isinstance(st__.get("vf"), dict):
+                return True
+            for n, m in vfm.items():
+                o = st__["vf"].get(n)
+                if o is None:
+                    continue
+                if o["calls"] != m["calls"]:
+                    oc.bad("callback-count:%s" % n, "after %s the callback of %s has run %d time(s) since the start of the case where exactly %d "
+                           "run(s) are due (one per setting whose value parses, refused or not; none otherwise)"
+                           % (what, n, o["calls"] - vf0[n], m["calls"] - vf0[n]))
+                    return False
+                if not same(items[n]["type"], o["var"], m["var"]):
+                    oc.bad("bound-variable:%s" % n, "after %s the variable bound to %s holds %s, expected %r (last accepted value)"
+                           % (what, n, show(items[n]["type"], o["var"]), m["var"]))
+                    return False
+            return True
+
+        vf0 = {n: m["calls"] for n, m in (vfm or {}).items()}
 
         # ---- the other ops
         for op, sidx, pos in flat:
@@ -551,9 +700,17 @@ class C48(core.Prop):
                                "glued --cfg string %r was accepted although its setting #%d must be refused (%s)" % (text, f, exps[f][3]))
                         return oc
                 for o, e in zip(subs[:f] if f is not None else subs, exps):
+                    if expected.get(e[1]) is not UNKNOWN and same(items[e[1]]["type"], expected.get(e[1]), e[2]):
+                        oc.labels.append("same-value-again")
                     expected[e[1]] = e[2]
+                    if vfm is not None and e[1] in vfm:
+                        vfm[e[1]]["calls"] += 1
+                        vfm[e[1]]["var"] = e[2]
+                        oc.labels.append("callback-count-checked")
                     if e[1] == "model-check/replay" and e[2] != "":
                         replay = True
+                if not vf_compare(st_, "the glued --cfg string %r" % text):
+                    return oc
                 for o, e in zip(subs, exps):
                     if e[1] and expected.get(e[1]) is not UNKNOWN:
                         got = st_.get("read", {}).get(e[1])
@@ -578,14 +735,50 @@ class C48(core.Prop):
             if self.is_boundary(op, typ, real):
                 boundary = True
                 oc.labels.append("boundary-value")
+            if op.get("seq"):
+                oc.labels.append("seq:" + op["seq"])
+            isvf = vfm is not None and real in vfm
             st_ = steps.get(sidx)
             if st_ is None:
                 had_reject = True
-                death(kind, kind in ("reject", "open", "open-reject", "exit0"), desc(op))
+                death(kind, kind in ("reject", "open", "open-reject", "exit0") or (kind == "reject-exc" and not isvf), desc(op))
                 return self.finish(oc, boundary, used_alias, had_reject)
             failed = not st_["ok"]
             got = st_.get("read", {}).get(real) if real else None
-            if kind == "ok":
+            if isvf:
+                oc.labels.append("callback-count-checked")
+                if kind in ("open", "open-reject"):
+                    # C spelling (0x.., +5): stored or refused, by the parser or by the callback: take the observed count if it is a possible one
+                    o = st_.get("vf", {}).get(real, {})
+                    if o.get("calls") in (vfm[real]["calls"], vfm[real]["calls"] + 1) and (failed or o.get("calls") == vfm[real]["calls"] + 1):
+                        vfm[real]["calls"] = o["calls"]
+                        if not failed:
+                            vfm[real]["var"] = pyval(typ, o["var"])
+                    else:
+                        vfm[real]["calls"] += 0 if failed else 1
+            if kind == "poke":
+                vfm[real]["var"] = val
+                oc.labels.append("poke")
+            elif kind == "reject-exc":
+                had_reject = True
+                if last_refused.get(real) == (val,):
+                    oc.labels.append("refused-value-again")
+                last_refused[real] = (val,)
+                if isvf:
+                    vfm[real]["calls"] += 1          # the callback is what refuses: it ran; the bound variable keeps the last accepted value
+                if not failed:
+                    oc.bad("invalid-setting-accepted:%s:validation" % real, "%s was accepted (item now %s); the validation callback of %s "
+                           "refuses this value by throwing%s" % (desc(op)[0], show(typ, got), real,
+                                                                 " (it did so earlier in this very case)" if "refused-value-again" in oc.labels[-2:] else ""))
+                    return oc
+                oc.labels.append("rejected-by-exception")
+                expected[real] = UNKNOWN                # the element is written before its callback runs: it holds the refused value
+            elif kind == "ok":
+                if expected.get(real) is not UNKNOWN and same(typ, expected.get(real), val) and op["how"] != "typed":
+                    oc.labels.append("same-value-again")
+                if isvf:
+                    vfm[real]["calls"] += 1
+                    vfm[real]["var"] = val
                 if failed:
                     # a std::range_error comes from the value parsers (root cause: the grammar of the type), anything else from the item
                     where = "type=" + typ if st_.get("exc") == "std::range_error" and xbt1.validate(real, val, replay, items[real]) != "reject" \
@@ -652,6 +845,8 @@ class C48(core.Prop):
                         replay = True
             elif kind == "exit0":
                 oc.bad("help-value-stored:%s" % real, "%s did not print the help and exit" % desc(op)[0])
+                return oc
+            if not vf_compare(st_, desc(op)[0]):
                 return oc
         # ---- final state of every item
         end = steps.get("end")
